@@ -2,4 +2,4 @@
    the 15-second shortcut. Same directives as ExtractLogql.v. *)
 From Coq Require Import Extraction ExtrOcamlBasic ExtrOcamlString.
 From Qryn Require Import lib.Strs model.Sql model.SqlRender model.Logql model.LogqlPlan model.LogqlCases model.LogqlMetricSem.
-Extraction "logqlplan.ml" script_sqls analyze_m15 m15_representable n_label_filters.
+Extraction "logqlplan.ml" script_sqls analyze_m15 m15_representable n_label_filters norm_script.
